@@ -278,7 +278,7 @@ def check(ctx, tree, leaves0, dsl, cfg):
 
 
 def run_shard(ctx):
-    preds = ['none', 'is_tuple']
+    preds = ['none', 'tuple_or_none']
     modes = None
     nss = ['', 'ns'] if ctx.tier == 'quick' else None
     e1.drive(ctx, ctx.tier, lambda tree, leaves, dsl, cfg: check(ctx, tree, leaves, dsl, cfg),
